@@ -243,6 +243,35 @@ impl Env {
     fn failsweep(&mut self) -> Vec<Tok> { vec![b("NOHOOK")] }
     pub fn has_failat_hook() -> bool { cfg!(ferrous_verif) }
 
+    /// C10: a foreground save issued while a background save is still writing (SAVE or SHUTDOWN during a
+    /// BGSAVE or an auto-save): both end well, and the dump on disk loads as the dataset.  Before
+    /// aa75b1d both wrote the same temporary file.  The dump file is put back as it was afterwards.
+    fn saverace(&mut self) -> Vec<Tok> {
+        let rdb = self.rdb(); let eng = self.eng.clone();
+        let before = std::fs::read(self.file()).ok();
+        // enough data for the background save to be still writing when the foreground one starts
+        let blob = vec![b'x'; 65536];
+        for k in 0..192 { let _ = eng.set_string(14, format!("race-{}", k).into_bytes(), blob.clone()); }
+        let (mut fg_ok, mut idle, mut loads) = (true, true, true);
+        for round in 0..3 {
+            let started = rdb.bgsave(eng.clone()).is_ok();
+            let _ = eng.set_string(14, b"race-round".to_vec(), format!("{}", round).into_bytes());
+            if !matches!(catch_unwind(AssertUnwindSafe(|| rdb.save(&eng))), Ok(Ok(()))) { fg_ok = false; }
+            let t0 = Instant::now();
+            while rdb.is_bgsave_in_progress() { if t0.elapsed() > Duration::from_secs(20) { idle = false; break; } std::thread::sleep(Duration::from_millis(1)); }
+            if !started { idle = false; }
+            // nothing changed since the later of the two snapshots began: the dump is the dataset
+            let probe = StorageEngine::new();
+            let ok = matches!(catch_unwind(AssertUnwindSafe(|| rdb.load(&probe))), Ok(Ok(())));
+            if !ok || hash_toks(&dump_engine(&probe, true).0) != hash_toks(&dump_engine(&eng, true).0) { loads = false; }
+            if self.dir.join("dump.tmp").exists() { loads = false; }
+        }
+        for k in 0..192 { let _ = eng.delete(14, format!("race-{}", k).as_bytes()); }
+        let _ = eng.delete(14, b"race-round");
+        match before { Some(b) => { let _ = std::fs::write(self.file(), b); } None => { let _ = std::fs::remove_file(self.file()); } }
+        vec![i(fg_ok as i64), i(idle as i64), i(loads as i64)]
+    }
+
     /// C10 (2): saves racing with a writer that flips one key between ("old", no TTL) and
     /// ("new", TTL): a loaded snapshot holding ("old", TTL) or ("new", no TTL) is a pair the key
     /// never had (value read by storage.get, TTL by a later storage.ttl)
@@ -404,6 +433,7 @@ impl Env {
                 nop.truncate(2); nop.push(Tok::I(w));
                 self.bgsweep()
             }
+            b"SAVERACE" => self.saverace(),
             b"TEARSTRESS" => {
                 // op[2] = number of saves; the observation (torn snapshots, saves) goes into the op:
                 // it depends on the schedule and is judged, not compared
